@@ -4,7 +4,7 @@ recognised shapes are recorded in tb.issues (-> UNRECOGNISED verdicts)."""
 import re
 from . import thir as T
 from .pat import M, parse as P, unify, subterms
-from .tables import EvTables, summarise, show_summary, show_tail, tok_name, cat_name, category_order, SELF
+from .tables import subst_vars, EvTables, summarise, show_summary, show_tail, tok_name, cat_name, category_order, SELF
 from .lexer import LexModel
 from . import spec
 
@@ -67,7 +67,7 @@ class Model:
             self.issue("T_loop", self.ev, "parser function %s not found" % name)
             self._sum[name] = None
             return None
-        t = T.anf(self.tb.fn_term(f))
+        t = T.anf(self.tb.parser_term(f))
         s = summarise(t)
         self._sum[name] = s
         return s
@@ -90,8 +90,22 @@ class Model:
         for pat, sm in tail[2]:
             for v in self.tb._pat_variants(pat):
                 if v not in out:
-                    out[v] = (pat, sm)
+                    out[v] = (pat, self._resolve_curcat(sm, v))
         return out
+
+    def _resolve_curcat(self, sm, tokvar):
+        """`curcat` (the category of the token that selected the arm, read before anything was consumed) -> that category"""
+        cat = self.tb.category_of(tokvar)
+
+        def r(x):
+            if isinstance(x, tuple):
+                return tuple(r(y) for y in x)
+            if isinstance(x, list):
+                return [r(y) for y in x]
+            if x == "curcat" and cat:
+                return cat
+            return x
+        return r(sm)
 
     def prim(self):
         """dict Token-variant -> (pattern, summary) of parse_number; '_' default."""
@@ -139,7 +153,7 @@ class Model:
         f = self.tb.fn("::parser::Parser::generate_ast")
         if f is None:
             return False, "generate_ast not found"
-        t = self.tb.fn_term(f)
+        t = self.tb.parser_term(f)
         LT = "(call \"<utils::operator_category::OperatorCategory as cmp::PartialOrd>::lt\" (param ?prec) (call Token.get_oper_prec %s))" % T.show(CUR)
         EOFBRK = "(if (call \"<Token as cmp::PartialEq>::eq\" %s (ctor Token::Eof)) (break) (unit))" % T.show(CUR)
         STEP1 = "(let ?r (try (call P.convert_token_to_node (param self) (var ?l)))) (set (var ?l) (var ?r))"
@@ -231,26 +245,50 @@ class Model:
 
     # ---- shared premises ------------------------------------------------------
     def entry_chain(self):
-        """eval_x = strip whitespace -> Parser::new(.., Some(placeholder))? -> parse()? -> eval(ast)? -> Ok  (nothing else)"""
+        """eval_x = strip whitespace -> Parser::new(.., Some(placeholder))? -> parse()? -> eval(ast)? -> Ok  (nothing else).
+        Decided on the dataflow expression of the body (local helpers inlined, Result combinators and `?` unified,
+        single-use lets substituted), so the spelling of the chain does not matter."""
         fe = self.F.by_key.get("%s::%s" % (self.ev, self.ev))
         if fe is None:
             return False, "entry point not found"
         te = self.tb.fn_term(fe)
-        want = "(seq (let ?s (call Iterator::collect::<String> (call str::split_whitespace (param ?e)))) (let ?p (try (call P.new (var ?s) (Some (param ?ph))))) (let ?a (try (call P.parse (var ?p)))) ...)"
-        e = M(want, te)
-        if e is None:
-            return False, T.show(te)[:300]
-        rest = te[4:]
-        ev_call = ("try", ("call", "Ast.eval", ("var", e["?a"])))
-        ok = rest == (("Ok", ev_call),) or (len(rest) == 2 and M(("let", "?r", ev_call), rest[0]) is not None and rest[1] == ("Ok", ("var", rest[0][1])))
-        return ok, ("strip -> new? -> parse? -> eval? -> Ok" if ok else T.show(te)[:300])
+        t = self.tb.canon_result(self.tb.inline_helpers(self.tb.canon_result(te)))
+        items = list(t[1:]) if isinstance(t, tuple) and t and t[0] == "seq" else [t]
+        env = {}
+        for it in items[:-1]:
+            if not (isinstance(it, tuple) and len(it) == 3 and it[0] == "let"):
+                return False, "statement other than a binding in the entry point: " + T.show(it)[:200]
+            env[it[1]] = it[2]
+        uses = {n: 0 for n in env}
+
+        def count(x):
+            if isinstance(x, tuple):
+                if len(x) == 2 and x[0] == "var" and x[1] in uses:
+                    uses[x[1]] += 1
+                for y in x:
+                    count(y)
+        for it in items:
+            count(it[2] if (isinstance(it, tuple) and len(it) == 3 and it[0] == "let") else it)
+        if any(v != 1 for v in uses.values()):
+            return False, "a bound value is used %s times: %s" % (sorted(uses.items()), T.show(t)[:200])
+        final = items[-1]
+        for _ in range(len(env) + 1):
+            final = subst_vars(final, env)
+        STRIP = ("|", ("call", "Iterator::collect::<String>", ("call", "str::split_whitespace", ("param", "?e"))),
+                 ("call", "Iterator::collect::<String>", ("call", "<std::str::Chars<'_> as iter::Iterator>::filter", ("call", "str::chars", ("param", "?e")),
+                                                          ("lambda", (("bind", "?c"),), ("un", "not", "bool", ("call", "char::is_whitespace", ("var", "?c")))))))
+        want = ("Ok", ("ev", ("try", ("call", "P.parse", ("try", ("call", "P.new", STRIP, ("Some", ("param", "?ph"))))))))
+        e = M(want, final)
+        ps = T.param_ids(fe)
+        ok = e is not None and len(ps) == 2 and e["?e"] == ps[0][1] and e["?ph"] == ps[1][1]
+        return ok, ("strip -> new? -> parse? -> eval? -> Ok" if ok else T.show(final)[:300])
 
     def list_shape(self):
         """find_item_list: name, '(', [ e { ',' e } ], ')' with exactly one push per argument into a local vector"""
         fil = self.tb.fn("::parser::Parser::find_item_list")
         if fil is None:
             return None, "no find_item_list"
-        t = self.tb.fn_term(fil)
+        t = self.tb.parser_term(fil)
         EQ = "<Token as cmp::PartialEq>::eq"
         e = M(("seq", ("try", ("call", "P.get_next_token", ("param", "self"))), ("try", ("call", "P.check_paren", ("param", "self"), ("param", "?st"))), ("let", "?args", ("call", "Vec::new")),
                ("loop", "?body"), ("Ok", ("var", "?args"))), t)
@@ -274,7 +312,7 @@ class Model:
         f = self.tb.fn("::parser::Parser::parse")
         if f is None or not f.mir:
             return False, "parse not found"
-        t = self.tb.fn_term(f)
+        t = self.tb.parser_term(f)
         cmps = []
         for s_ in subterms(t):
             if isinstance(s_, tuple) and len(s_) == 4 and s_[0] == "call" and s_[1] in ("<Token as cmp::PartialEq>::eq", "<Token as cmp::PartialEq>::ne") and (unify(CUR, s_[2]) is not None or unify(CUR, s_[3]) is not None):
